@@ -248,9 +248,12 @@ RECURSIVE InitPush(_, _)
 InitPush(c, t) == IF t.g = "S" THEN InitPush(Push(c, t.fields, 0), t.fields[1].t) ELSE c
 ImplInit(t) ==    \* __Pyx_BufFmt_Init
   InitPush([st |-> <<[fs |-> <<[t |-> t, off |-> 0]>>, i |-> 1, po |-> 0]>>, hn |-> FALSE, fo |-> 0, nc |-> 1, ec |-> 0,
-            et |-> "", cx |-> FALSE, npm |-> "@", epm |-> "@", va |-> FALSE, sa |-> 0, ev |-> {}, res |-> "run", lr |-> ""], t)
+            et |-> "", cx |-> FALSE, npm |-> "@", epm |-> "@", va |-> FALSE, sa |-> 0, sd |-> 0, ev |-> {}, res |-> "run", lr |-> ""], t)
 
 \* moving on to the next field after one has been checked: the while(1) loop of _ProcessTypeChunk
+RECURSIVE Descend(_, _, _)
+Descend(c, t, po) ==      \* push the first member of every leading struct level (the do-while of _ProcessTypeChunk, as the loop of _Init)
+  IF t.fields[1].t.g = "S" THEN Descend(Push(c, t.fields, po), t.fields[1].t, po + t.fields[1].off) ELSE Push(c, t.fields, po)
 RECURSIVE Advance(_)
 Advance(c) ==
   IF Len(c.st) = 1 THEN                                   \* field == &ctx->root
@@ -259,9 +262,9 @@ Advance(c) ==
            i1 == fr.i + 1
            c1 == [c EXCEPT !.st[Len(c.st)].i = i1]
        IN IF i1 > Len(fr.fs) THEN Advance(Pop(c1))        \* field->type == NULL: back to the parent
-          ELSE IF fr.fs[i1].t.g = "S" THEN                \* one level only, unlike the loop of _Init
-                 Push(IF fr.fs[i1].t.fields[1].t.g = "S" THEN Ev(c1, "struct-in-first-member") ELSE c1,
-                      fr.fs[i1].t.fields, fr.po + fr.fs[i1].off)
+          ELSE IF fr.fs[i1].t.g = "S" THEN                \* all leading struct levels, like the loop of _Init
+                 Descend(IF fr.fs[i1].t.fields[1].t.g = "S" THEN Ev(c1, "struct-in-first-member") ELSE c1,
+                         fr.fs[i1].t, fr.po + fr.fs[i1].off)
           ELSE c1
 
 EncSize(c) == LET tc == TCof(IF c.cx THEN ZCode(c.et) ELSE c.et) IN IF c.epm \in {"@", "^"} THEN tc.n ELSE tc.s
@@ -283,7 +286,8 @@ PTCLoop(c, asz) ==       \* one round of the do-while of _ProcessTypeChunk
       sa1 == IF native /\ c.sa = 0 THEN EncAlign(c) ELSE c.sa
       c1 == [c EXCEPT !.fo = fo1, !.sa = sa1]
       mismatch == ty.size # size \/ ty.g # grp
-  IN IF mismatch /\ ty.g = "C" /\ ty.fields # <<>> THEN    \* struct of two floats: descend; `continue` re-tests enc_count
+  IN IF size = 0 THEN Err(c)                                \* n, N, g have no standard size: `if (size == 0) return -1`
+     ELSE IF mismatch /\ ty.g = "C" /\ ty.fields # <<>> THEN    \* struct of two floats: descend; `continue` re-tests enc_count
        PTCNext(Push(c1, ty.fields, fr.po + field.off), asz)
      ELSE IF mismatch /\ ~((ty.g = "H" \/ grp = "H") /\ ty.size = size) THEN Err(c1)
      ELSE IF fo1 # fr.po + field.off THEN Err(c1)
@@ -323,7 +327,7 @@ ParseArray(f, c, p) ==
   IF c.nc # 1 THEN [c |-> Err(c), p |-> p]
   ELSE ParseArray_(f, PTC(c), p)
 
-TypeChars == {"?", "c", "b", "B", "h", "H", "i", "I", "l", "L", "q", "Q", "f", "d", "g", "O", "p"}
+TypeChars == {"?", "c", "b", "B", "h", "H", "i", "I", "l", "L", "q", "Q", "n", "N", "f", "d", "g", "O", "p"}
 
 \* __Pyx_BufFmt_CheckString from position p; z = got_Z.  -> [c, p]: c.res = "run" means `return ts`
 \* (at the end of the string or after a closing brace), p the position returned.
@@ -334,17 +338,21 @@ CSRepeat(f, c, p, n, after) ==     \* the for loop of case 'T'
   IF n = 0 \/ c.res # "run" THEN [c |-> c, p |-> after]
   ELSE CSRepeat_(f, CS(f, c, p, FALSE), p, n - 1)
 
-NewChunk_(c1, l, z) == IF c1.res # "run" THEN c1 ELSE [c1 EXCEPT !.ec = c1.nc, !.epm = c1.npm, !.et = l, !.cx = z, !.nc = 1]
+NewChunk_(c1, l, z) == IF c1.res # "run" THEN c1
+                       ELSE IF c1.nc = 0 THEN               \* a count of 0 opens no chunk: it aligns (native mode) and nothing else
+                         [c1 EXCEPT !.fo = IF c1.npm = "@" THEN RoundUp(@, TCof(l).a) ELSE @, !.ec = 0, !.epm = c1.npm, !.nc = 1,
+                                    !.ev = @ \cup {"zero-count-chunk"}]
+                       ELSE [c1 EXCEPT !.ec = c1.nc, !.epm = c1.npm, !.et = l, !.cx = z, !.nc = 1]
 NewChunk(c, l, z) == NewChunk_(PTC(c), l, z)      \* case 's' and everything that falls through to it
 
 CSEnd_(c1, p) == IF c1.res # "run" THEN [c |-> c1, p |-> p]
                  ELSE IF ~c1.hn THEN [c |-> Err(c1), p |-> p]
                  ELSE [c |-> c1, p |-> p]
 CSRec2_(f, r, salign, z) == IF r.c.res # "run" THEN r
-                            ELSE CS(f, IF salign # 0 THEN [r.c EXCEPT !.sa = salign] ELSE r.c, r.p, z)
+                            ELSE CS(f, [r.c EXCEPT !.sd = @ - 1, !.sa = IF salign # 0 THEN salign ELSE @], r.p, z)
 CSRec_(f, c1, p, z, cnt, salign) ==
   IF c1.res # "run" THEN [c |-> c1, p |-> p]
-  ELSE CSRec2_(f, CSRepeat(f, [c1 EXCEPT !.et = "", !.ec = 0, !.sa = 0], p + 2, cnt, p + 2), salign, z)
+  ELSE CSRec2_(f, CSRepeat(f, [c1 EXCEPT !.et = "", !.ec = 0, !.sa = 0, !.sd = @ + 1], p + 2, cnt, p + 2), salign, z)
 CSClose_(c1, p, alignment) ==
   IF c1.res # "run" THEN [c |-> c1, p |-> p]
   ELSE [c |-> [c1 EXCEPT !.et = "", !.fo = IF alignment # 0 THEN RoundUp(@, alignment) ELSE @, !.lr = "brace"], p |-> p + 1]
@@ -357,14 +365,14 @@ CS(f, c, p, z) ==
   ELSE IF p > Len(f) THEN                                   \* case 0
     (IF c.et # "" /\ c.hn THEN [c |-> Err(c), p |-> p] ELSE CSEnd_(PTC(c), p))
   ELSE LET l == f[p] IN
-    IF l = " " THEN CS(f, c, p + 1, z)
+    IF l \in {" ", "\t"} THEN CS(f, c, p + 1, z)
     ELSE IF l = "<" THEN CS(f, [c EXCEPT !.npm = "="], p + 1, z)
     ELSE IF l \in {">", "!"} THEN [c |-> Err(Ev(c, "big-endian")), p |-> p]
     ELSE IF l \in {"=", "@", "^"} THEN CS(f, [c EXCEPT !.npm = l], p + 1, z)
     ELSE IF l = "T" THEN
       (IF p + 1 > Len(f) \/ f[p + 1] # "{" THEN [c |-> Err(c), p |-> p]
        ELSE CSRec_(f, PTC([c EXCEPT !.nc = 1]), p, z, c.nc, c.sa))
-    ELSE IF l = "}" THEN CSClose_(PTC(c), p, c.sa)
+    ELSE IF l = "}" THEN (IF c.sd = 0 THEN [c |-> Err(Ev(c, "stray-close")), p |-> p] ELSE CSClose_(PTC(c), p, c.sa))
     ELSE IF l = "x" THEN CSPad_(f, PTC(c), p, z)
     ELSE IF l = "Z" THEN
       (IF p + 1 > Len(f) \/ f[p + 1] \notin {"f", "d", "g"} THEN [c |-> Err(c), p |-> p] ELSE CS(f, c, p + 1, TRUE))
@@ -505,15 +513,15 @@ ICalc == ImplRes(impl, D.t, ISz)
 IDt == ImplRes(impl, D.t, D.size)
 
 \* deviations of the code as it is that the model exhibits: every one passes a marked code point or a marked kind of format
-KnownRefFlags == {"nN", "tab", "struct-pad", "zero-count", "shape-blank"}
-KnownEvents == {"null-head", "struct-in-first-member", "stray-close"}
+KnownRefFlags == {"struct-pad", "shape-blank"}
+KnownEvents == {"null-head"}
 Agree(v, i) == \/ v = "unspecified" /\ i \in {"accept", "reject"}
                \/ v = "compatible" /\ i = "accept"
                \/ v = "incompatible" /\ i = "reject"
 Marked == ref.flags \cap KnownRefFlags # {} \/ impl.ev \cap KnownEvents # {}
 
 \* the transcription never accepts a buffer the reference calls incompatible ...
-NoFalseAccept == "stray-close" \notin impl.ev =>
+NoFalseAccept ==
                    /\ ICalc = "accept" => VCalc # "incompatible"
                    /\ (HasDt /\ IDt = "accept") => VDt # "incompatible"
 \* ... it crashes or hangs only on formats that are incompatible or carry a marked feature ...
